@@ -57,11 +57,21 @@ impl ServiceTargetActor {
                             self.helper.send_to_actor(requester, msg).await
                         }
                         ActorInputMessage::Requested { kind: ExecutionKind::Service, requester } => {
-                            let inserted = self.helper.requesters.get_mut(&ExecutionKind::Service).unwrap().insert(requester);
+                            let inserted = self.helper.requesters.get_mut(&ExecutionKind::Service).unwrap().insert(requester.clone());
 
                             if inserted && self.helper.requesters[&ExecutionKind::Service].len() == 1 {
                                 self.helper.request_dependencies(ExecutionKind::Build).await;
                                 self.helper.request_dependencies(ExecutionKind::Service).await;
+                            }
+
+                            if inserted && self.helper.executed {
+                                // The service is already running: this requester missed the Ok sent at that time
+                                let msg = ActorInputMessage::Ok {
+                                    kind: ExecutionKind::Service,
+                                    target_id: self.helper.target_id.clone(),
+                                    actual: true,
+                                };
+                                self.helper.send_to_actor(requester, msg).await
                             }
                         }
                         ActorInputMessage::Unrequested { kind, requester } => {
